@@ -1,14 +1,18 @@
 #!/bin/bash
 # tools/seeded_matrix.sh [tier]: run every seeded change against the check of its property
-# (scratch worktree + EKOSIM_REPO, /repo untouched) and write seeded/RESULTS.txt
+# (meta.json "check_with" overrides the property) in a scratch worktree (+ EKOSIM_REPO, /repo
+# untouched) and write seeded/RESULTS.txt
 TIER=${1:-quick}
 cd /verif
 OUT=seeded/RESULTS.txt
-echo "# seeded change | check exit (1 = caught) | first violation line     (tier=$TIER, $(date -u +%F))" > $OUT
+echo "# seeded change | check | exit (1 = caught) | first violation line     (tier=$TIER, $(date -u +%F))" > $OUT
 for d in seeded/C*-*/; do
   n=$(basename $d); prop=${n%-*}
-  r=$(tools/try_seeded_wt.sh $d/patch.diff $prop --tier $TIER 2>&1)
-  rc=$(echo "$r" | grep -o "exit=[0-9]*" | tail -1)
-  first=$(echo "$r" | grep -E "^  " | head -1 | cut -c1-150)
-  echo "$n | $rc | $first" | tee -a $OUT
+  props=$(python3 -c "import json;m=json.load(open('$d/meta.json'));print(' '.join(m.get('check_with',[m['property']])))")
+  for p in $props; do
+    r=$(tools/try_seeded_wt.sh $d/patch.diff $p --tier $TIER 2>&1)
+    rc=$(echo "$r" | grep -o "exit=[0-9]*" | tail -1)
+    first=$(echo "$r" | grep -E "^  " | head -1 | cut -c1-150)
+    echo "$n | $p | $rc | $first" | tee -a $OUT
+  done
 done
